@@ -92,10 +92,15 @@ impl Header {
         // value, so a future REPE revision can assign meaning to these bits
         // without breaking this receiver.
 
-        let expected = HEADER_SIZE as u64 + query_length + body_length;
-        if length != expected {
+        // The lengths come off the wire: add them with overflow checks so a
+        // hostile header can neither panic (debug) nor wrap to a sum that
+        // happens to equal `length` (release).
+        let expected = (HEADER_SIZE as u64)
+            .checked_add(query_length)
+            .and_then(|sum| sum.checked_add(body_length));
+        if expected != Some(length) {
             return Err(RepeError::LengthMismatch {
-                expected,
+                expected: expected.unwrap_or(u64::MAX),
                 got: length,
             });
         }
